@@ -281,6 +281,9 @@ fn str_is_ascii_model(s: &str) -> bool {
 fn c16_decode_pdfdoc_ascii_1() {
     let b: u8 = kani::any();
     kani::assume(b < 0x80);
+    // only the bytes text_string() may emit for ASCII text (c16_text_string_dispatch): 0x18..0x1F are
+    // accents in PDFDocEncoding and are written as UTF-16BE instead
+    kani::assume(encodings::PDF_DOC_ENCODING[b as usize] == Some(b as u16));
     let o = Object::String(vec![b], StringFormat::Literal);
     let d = decode_text_string(&o);
     match &d {
